@@ -41,6 +41,7 @@ pub fn profile() -> Profile {
     p.nonascii = 2;
     p.vin_as_storage = 1;
     p.out_as_storage = 2;
+    p.keyword_names = 3;
     p
 }
 
